@@ -61,9 +61,22 @@ for m in sorted(glob.glob(os.path.join(VERIF, "seeded/*/meta.json"))):
 seed_table = "\n".join(["| seeded change | property | confirmed (demo fails with it, passes without; existing tests pass) | caught by | what |",
                         "|---|---|---|---|---|"] + seed_rows)
 
+per = []
+for p_ in props:
+    pid = p_["id"]
+    fp = os.path.join(VERIF, "bin/props.d/%s.json" % pid)
+    cfg = json.load(open(fp)) if os.path.exists(fp) else {}
+    vf = os.path.join(VERIF, "coq/theories/Properties/%s.v" % pid)
+    thms = re.findall(r"^\s*(?:Theorem|Lemma|Corollary)\s+(\w+)", strip_comments(open(vf).read()), re.M) if os.path.exists(vf) else []
+    per.append("**%s — %s.** %s\n\n*Trusted / assumed:* %s %s\n\n*Theorems (`Properties/%s.v`):* %s\n\n*Harness:* `harness/cmd/%s` family `%s`, Coq side `Corr/%s.v`.\n" % (
+        pid, p_["title"], cfg.get("level_text", "(not claimed)"), cfg.get("level_note", ""),
+        ("Assumptions: " + "; ".join(cfg.get("assumptions", []))) if cfg.get("assumptions") else "",
+        pid, ", ".join("`%s`" % t for t in thms) or "–", cfg.get("cmd", "?"), cfg.get("family", "?"), cfg.get("run_module", "?")))
+perprop = "\n".join(per)
+
 path = os.path.join(VERIF, "DESIGN.md")
 s = open(path).read()
-for name, body in (("STATUS", table), ("SEEDED", seed_table)):
+for name, body in (("STATUS", table), ("SEEDED", seed_table), ("PERPROP", perprop)):
     b, e = "<!-- AUTOGEN:%s:BEGIN -->" % name, "<!-- AUTOGEN:%s:END -->" % name
     if b in s:
         s = s[:s.index(b) + len(b)] + "\n" + body + "\n" + s[s.index(e):]
